@@ -475,7 +475,7 @@ func (p *parser) parseList(leftType, rightType tokenType) func() (*astNode, erro
 	return func() (*astNode, error) {
 		i := p.idx
 		T := p.tokens
-		if T[i].typ != leftType {
+		if T[i].typ != leftType || i+1 >= len(T) {
 			return nil, nil
 		}
 		typ := T[i+1].typ
